@@ -225,6 +225,8 @@ mutual
 /-- only strings, primitives and containers (what may stand inside a raw-text element) -/
 def vLeafOnly : VNode → Bool
   | .elem .. => false
+  | .island .. => false
+  | .islandChildren _ => false
   | .seq ks => vLeafOnlyKids ks
   | .vec ks => vLeafOnlyKids ks
   | _ => true
@@ -245,6 +247,8 @@ def vShapeNode (anc : List Str) : VNode → Bool
   | .seq ks => vShapeKids anc ks
   | .vec ks => vShapeKids anc ks
   | .unit => true
+  | .island c _ ks => compOK c && vShapeKids (tIsland :: anc) ks     -- the component name is program text
+  | .islandChildren ks => vShapeKids (tIslandChildren :: anc) ks
 def vShapeKids (anc : List Str) : List VNode → Bool
   | [] => true
   | n :: ns => vShapeNode anc n && vShapeKids anc ns
@@ -259,6 +263,8 @@ def vCleanNode : VNode → Bool
   | .seq ks => vCleanKids ks
   | .vec ks => vCleanKids ks
   | .unit => true
+  | .island _ p ks => clean p && vCleanKids ks
+  | .islandChildren ks => vCleanKids ks
 def vCleanKids : List VNode → Bool
   | [] => true
   | n :: ns => vCleanNode n && vCleanKids ns
@@ -269,6 +275,8 @@ theorem vBlank_of_noText : (n : VNode) → vLeafOnly n = true → vHasText n = f
   | .text _, _, h => by simp [vHasText] at h
   | .prim _, _, h => by simp [vHasText] at h
   | .elem .., h, _ => by simp [vLeafOnly] at h
+  | .island .., h, _ => by simp [vLeafOnly] at h
+  | .islandChildren _, h, _ => by simp [vLeafOnly] at h
   | .seq ks, h1, h2 => by
     simpa [vBlank] using vBlankKids_of_noText ks (by simpa [vLeafOnly] using h1) (by simpa [vHasText] using h2)
   | .vec ks, h1, h2 => by
@@ -325,6 +333,14 @@ theorem vwf_of_shape_node : (n : VNode) → ∀ (anc : List Str), vShapeNode anc
     simpa [vwfNode] using vwf_of_shape_kids ks anc (by simpa [vShapeNode] using hs)
       (by simpa [vCleanNode] using hc) (by simpa [vRawTextFree] using hr)
   | .unit, _, _, _, _ => by simp [vwfNode]
+  | .island c p ks, anc, hs, hc, hr => by
+    simp only [vShapeNode, Bool.and_eq_true] at hs
+    simp only [vCleanNode, Bool.and_eq_true] at hc
+    simp only [vwfNode, Bool.and_eq_true]
+    exact ⟨⟨hs.1, hc.1⟩, vwf_of_shape_kids ks (tIsland :: anc) hs.2 hc.2 (by simpa [vRawTextFree] using hr)⟩
+  | .islandChildren ks, anc, hs, hc, hr => by
+    simpa [vwfNode] using vwf_of_shape_kids ks (tIslandChildren :: anc) (by simpa [vShapeNode] using hs)
+      (by simpa [vCleanNode] using hc) (by simpa [vRawTextFree] using hr)
 theorem vwf_of_shape_kids : (ns : List VNode) → ∀ (anc : List Str), vShapeKids anc ns = true → vCleanKids ns = true →
     vRawTextFreeKids ns = true → vwfKids anc ns = true
   | [], _, _, _, _ => by simp [vwfKids]
@@ -370,6 +386,26 @@ example : vwfKids [[]] [.elem sDiv [] [.prim ['<'], .text ['b']]] = false ∧
     parse (vToHtml [.elem sDiv [] [.prim ['<'], .text ['b'], .prim ['&']]]) =
       some (vStructureOf [.elem sDiv [] [.prim ['<'], .text ['b'], .prim ['&']]]) := by
   decide
+
+
+/-! ## islands: attributes written by hand (html/islands.rs `Island::open_tag`) -/
+
+/-- the serialized props of an island arrive as exactly that string, whatever it contains (quotes of
+both kinds, `&`, `<`, `>`); instance of `C06_view_structure_preserved` kept as a named statement -/
+theorem C06_island_props (c p : Str) (ks : List VNode) (hc : compOK c = true) (hp : clean p = true)
+    (hk : vwfKids [tIsland, []] ks = true) :
+    parse (vToHtml [.island c p ks]) =
+      some [.elem tIsland (islandAttrs c p) (vStructKids .firstChild ks)] := by
+  have := C06_view_structure_preserved [.island c p ks] (by simp [vwfKids, vwfNode, hc, hp, hk])
+  simpa [vStructureOf, vStructKids, vStruct] using this
+
+example : parse (vToHtml [.island ['C'] ['{','"','a','"',':','"','\'','<','/','&','"','}'] [.text ['x']]]) =
+    some [.elem tIsland [(sDataComponent, ['C']), (sDataProps, ['{','"','a','"',':','"','\'','<','/','&','"','}'])]
+      [.text ['x']]] := by decide
+
+/-- `position` is passed through an island: a string before it puts the marker *inside* -/
+example : vToHtml [.text ['a'], .island ['C'] [] [.text ['b']], .text ['c']] =
+    ['a'] ++ islandOpen ['C'] [] ++ ['<','!','>','b','<','/'] ++ tIsland ++ ['>','<','!','>','c'] := by decide
 
 /-! ## the element table: `genericOK` is just `kind = generic` -/
 
@@ -549,6 +585,42 @@ theorem C06_head_old_full_false : ¬ C06_head_old_full := by
   have := h (some payloadTitle) [] (by decide) (by decide)
   rw [C06_title_old_witness.2.1] at this
   cases this
+
+/-! ## the whole first chunk: `<Html/>` / `<Body/>` attributes, title × formatter, head tags -/
+
+/-- an attribute string sent by `<Html/>` / `<Body/>` gives, after any tag name, exactly the intended
+attributes — for all values; instance of `C06_structure_preserved` on a probe element -/
+theorem C06_doc_attrs (attrs : List Attr) (h : attrsOK attrs = true) :
+    parse (attrsProbe attrs) = some [.elem tProbe (expectedAttrs attrs) []] := by
+  have hw : wfKids [[]] [.elem tProbe attrs []] = true := by
+    simp only [wfKids, wfNode, h, Bool.true_and, Bool.and_true]
+    decide
+  have := C06_structure_preserved [.elem tProbe attrs []] hw
+  have e : toHtml [.elem tProbe attrs []] = attrsProbe attrs := by
+    simp [toHtml, kidsHtml, nodeHtml, attrsProbe, show isVoid tProbe = false from by decide,
+      show escapeChildren tProbe = true from by decide, innerBuf_nil attrs (by
+        simp only [attrsOK, Bool.and_eq_true] at h; exact h.1)]
+  rw [e] at this
+  simpa [structureOf, structKids, structNode, show isVoid tProbe = false from by decide,
+    show escapeChildren tProbe = true from by decide, innerBuf_nil attrs (by
+      simp only [attrsOK, Bool.and_eq_true] at h; exact h.1)] using this
+
+/-- **document**: with `titleAsString` as the title (text of the innermost `<Title/>` through the
+innermost formatter — whatever text, prefix and suffix), any registered head tags and any `<Html/>` /
+`<Body/>` attributes, every inserted piece parses to exactly what was meant -/
+theorem C06_doc (htmlAttrs bodyAttrs : List Attr) (texts : List Str) (fmts : List (Str × Str))
+    (metas : List Node)
+    (hh : attrsOK htmlAttrs = true) (hb : attrsOK bodyAttrs = true)
+    (ht : ∀ t, titleAsString texts fmts = some t → clean t = true)
+    (hm : wfKids [[]] metas = true) (he : allElems metas = true) :
+    parse (attrsProbe htmlAttrs) = some [.elem tProbe (expectedAttrs htmlAttrs) []] ∧
+    parse (headHtml (titleAsString texts fmts) metas) = some (headStructure (titleAsString texts fmts) metas) ∧
+    parse (attrsProbe bodyAttrs) = some [.elem tProbe (expectedAttrs bodyAttrs) []] :=
+  ⟨C06_doc_attrs htmlAttrs hh, C06_head _ metas ht hm he, C06_doc_attrs bodyAttrs hb⟩
+
+/-- a formatter that adds markup-looking text: the final string is the title text -/
+example : titleAsString [['H','o','m','e']] [([], [' ','|',' ','<','/','t','i','t','l','e','>'])] =
+    some ['H','o','m','e',' ','|',' ','<','/','t','i','t','l','e','>'] := by decide
 
 /-! ## tables regenerated from the source (extract.py EscapeTables, Elements) -/
 
